@@ -40,28 +40,28 @@ var commonAssumptions = []string{
 
 var properties = []Property{
 	{ID: "C01", Title: "expressions evaluate to the defined value", Level: "other",
-		Rules:       []string{"R-OPMAP", "R-OPTABLE", "R-DIVGUARD", "R-UNARY", "R-MATCHCELLS", "R-MEMBERSHIP", "R-LOGICCELLS", "R-CONSTDEDUP", "R-SCRIPTINDEX", "R-FOLDRESET", "R-MATCHONCE", "R-FOLDARITY"},
-		Explanation: "Static table extraction over the type-checked AST: the compiler's operator→opcode map and every cell of the VM's five operator tables (Go operator, operand order, result type, sibling coverage, singleton pushes, division guard) are compared with the tables the language definition gives. Cell-level rules add the unary operators, the regexp-match cells, membership (`in` visits every element and compares type and printed form), the && / || cells, the constant pool's merge condition and the optimizer's window reset. The regexp matcher tries its pattern at least once for every subject, and the folder only rewrites when as many constants are pending as the operator has operands.",
+		Rules:       []string{"R-OPMAP", "R-OPTABLE", "R-DIVGUARD", "R-UNARY", "R-MATCHCELLS", "R-MEMBERSHIP", "R-LOGICCELLS", "R-CONSTDEDUP", "R-SCRIPTINDEX", "R-FOLDRESET", "R-MATCHONCE", "R-FOLDARITY", "R-DIVCONTEXT", "R-RANGE"},
+		Explanation: "Static table extraction over the type-checked AST: the compiler's operator→opcode map and every cell of the VM's five operator tables (Go operator, operand order, result type, sibling coverage, singleton pushes, division guard) are compared with the tables the language definition gives. Cell-level rules add the unary operators, the regexp-match cells, membership (`in` visits every element and compares type and printed form), the && / || cells, the constant pool's merge condition and the optimizer's window reset. The regexp matcher tries its pattern at least once for every subject, and the folder only rewrites when as many constants are pending as the operator has operands. A `/` after an operand is the division operator (and is only that after a look at the previous token), and the range operator builds the inclusive range.",
 		NotDecided:  "values Go arithmetic produces; cells computed by calls other than power/substring (regexp match); dispatch on operand types beyond C05's clause; nesting; integer % by zero (a recovered panic, which the property allows as an error).",
 		Assumptions: commonAssumptions},
 	{ID: "C02", Title: "control flow", Level: "other",
-		Rules:       []string{"R-PATCHALL", "R-JUMPSET", "R-HANDLERS", "R-LOOPHEAD", "R-ITERNEXT", "R-MEMBERSHIP", "R-SWITCHDEFAULT", "R-NOMUT", "R-JOINPH", "R-EMITSET", "R-LOOPSTACK", "R-SWITCHONCE", "R-SCOPEFRESH"},
-		Explanation: "SSA path analysis of the compiler: every placeholder jump is back-patched on every successful path, loops jump back to a head recorded before the re-executed code, the jump opcode set is the same in VM/optimizer/compiler, every opcode has a handler and the return opcode leaves the interpreter. The foreach handler advances its cursor once per cycle, membership loops have no early exit on a non-match, and a switch's default arm is compiled after every case. Each construct is translated with the opcodes of its scheme only (closed table), forward labels are outside every folding window. Known findings: a foreach body can bury the iterator it keeps on the stack; the switch subject is translated once per arm.",
+		Rules:       []string{"R-PATCHALL", "R-JUMPSET", "R-HANDLERS", "R-LOOPHEAD", "R-ITERNEXT", "R-MEMBERSHIP", "R-SWITCHDEFAULT", "R-NOMUT", "R-JOINPH", "R-EMITSET", "R-LOOPSTACK", "R-SWITCHONCE", "R-SCOPEFRESH", "R-SCOPERESTORE", "R-CONSTJUMP"},
+		Explanation: "SSA path analysis of the compiler: every placeholder jump is back-patched on every successful path, loops jump back to a head recorded before the re-executed code, the jump opcode set is the same in VM/optimizer/compiler, every opcode has a handler and the return opcode leaves the interpreter. The foreach handler advances its cursor once per cycle, membership loops have no early exit on a non-match, and a switch's default arm is compiled after every case. Each construct is translated with the opcodes of its scheme only (closed table), forward labels are outside every folding window. Known findings: a foreach body can bury the iterator it keeps on the stack; the switch subject is translated once per arm. A run ends with no loop scope left open (the variables it leaves are the globals), and the optimizer takes a conditional jump away only together with the constant that decides it.",
 		NotDecided:  "that patched offsets are the right ones (values computed while Prepare runs), order of arms, element order of foreach.",
 		Assumptions: commonAssumptions},
 	{ID: "C03", Title: "optimizer transparency", Level: "other",
-		Rules:       []string{"R-JOINPH", "R-FOLDAGREE", "R-JUMPSET", "R-EMITLEN", "R-NOINJECT", "R-FLAGONLY", "R-FOLDRESET", "R-OPTCLOSED", "R-FOLDARITY", "R-TABLEKEEP"},
-		Explanation: "Structural soundness conditions of the peephole optimizer: every forward label is outside every folding window (placeholder or preceded by an unconditional jump) and the folder resets its window on unnamed opcodes; jump sets agree between VM, NOP removal, dead-code pass and compiler; operand presence agrees; the optimizer switch is not script-visible. The optimizer performs exactly the enumerated rewrites (a new one is reported as not decided). Every write of the folder needs as many pending constants as the operator has operands.",
+		Rules:       []string{"R-JOINPH", "R-FOLDAGREE", "R-JUMPSET", "R-EMITLEN", "R-NOINJECT", "R-FLAGONLY", "R-FOLDRESET", "R-OPTCLOSED", "R-FOLDARITY", "R-TABLEKEEP", "R-CONSTJUMP"},
+		Explanation: "Structural soundness conditions of the peephole optimizer: every forward label is outside every folding window (placeholder or preceded by an unconditional jump) and the folder resets its window on unnamed opcodes; jump sets agree between VM, NOP removal, dead-code pass and compiler; operand presence agrees; the optimizer switch is not script-visible. The optimizer performs exactly the enumerated rewrites (a new one is reported as not decided). Every write of the folder needs as many pending constants as the operator has operands. A conditional jump is removed or made unconditional only where the instruction before it is known to push true or false.",
 		NotDecided:  "observational equivalence of optimized and unoptimized programs in general.",
 		Assumptions: commonAssumptions},
 	{ID: "C13", Title: "invalid scripts are rejected", Level: "other",
-		Rules:       []string{"R-NILERR", "R-ERRPROP", "R-BLOCKOPEN", "R-TOPSTOP", "R-TERNGUARD", "R-LOCALGUARD", "R-EOFSENTINEL", "R-NAMETOKEN", "R-FUNCFLAG", "R-SEENTOKEN", "R-VISITALL", "R-ONEDEFAULT", "R-TEXTOFNODE", "R-CHILDCOMPILED"},
-		Explanation: "SSA dataflow over the parser and compiler: a parse function returns nil only after an error was recorded (must-dataflow with callee summaries, through the registered parselet tables), Parse turns a non-empty error list into an error, every error-valued call has its error looked at and never replaced by nil, blocks are parsed only after '{' was demanded, the top-level loop stops only at end of input, nested ternaries and `local` outside functions are rejected. Names are only taken from tokens tested to be identifiers, the in-function flag is cleared on every exit, and the parser never steps over a token it has not looked at (identified beforehand as one kind on every path, or examined afterwards). Compiler loops over a node's children are left early only with an error, a switch cannot end up with two default arms, the printed form of a node stands for it only where the node is an identifier, and a ternary's condition is examined for a ternary.",
+		Rules:       []string{"R-NILERR", "R-ERRPROP", "R-BLOCKOPEN", "R-TOPSTOP", "R-TERNGUARD", "R-LOCALGUARD", "R-EOFSENTINEL", "R-NAMETOKEN", "R-FUNCFLAG", "R-SEENTOKEN", "R-VISITALL", "R-ONEDEFAULT", "R-TEXTOFNODE", "R-CHILDCOMPILED", "R-TOKENSTATE"},
+		Explanation: "SSA dataflow over the parser and compiler: a parse function returns nil only after an error was recorded (must-dataflow with callee summaries, through the registered parselet tables), Parse turns a non-empty error list into an error, every error-valued call has its error looked at and never replaced by nil, blocks are parsed only after '{' was demanded, the top-level loop stops only at end of input, nested ternaries and `local` outside functions are rejected. Names are only taken from tokens tested to be identifiers, the in-function flag is cleared on every exit, and the parser never steps over a token it has not looked at (identified beforehand as one kind on every path, or examined afterwards). Compiler loops over a node's children are left early only with an error, a switch cannot end up with two default arms, the printed form of a node stands for it only where the node is an identifier, and a ternary's condition is examined for a ternary. A typestate analysis of the current and next token (may it be the end of input, may it be illegal, has an error been recorded) over all parser methods, with summaries through calls and the parselet tables, shows that no advance steps off a token that may be either without an error on record.",
 		NotDecided:  "that each individual syntax check is the right check (needs a grammar as oracle).",
 		Assumptions: commonAssumptions},
 	{ID: "C04", Title: "host object fields", Level: "other",
-		Rules:       []string{"R-NONNIL", "R-RUNRESET", "R-LOOKUPORDER", "R-KINDTABLE", "R-COMMAOK", "R-PUREARGS", "R-REFLECTKIND"},
-		Explanation: "Conversion of host fields is total and never yields a nil object (SSA nil-source analysis with function summaries over every Object-returning function and every push/store sink), every run and nested call starts from an empty field cache, and names resolve as variable, then field, then null (dominance in the resolver). The reflect.Kind → object table is the documented one, comma-ok results are used only where ok was tested, and no built-in reorders or writes an array it was given (a field's array is shared with the field cache).",
+		Rules:       []string{"R-NONNIL", "R-RUNRESET", "R-LOOKUPORDER", "R-KINDTABLE", "R-COMMAOK", "R-PUREARGS", "R-REFLECTKIND", "R-ONPATHONLY"},
+		Explanation: "Conversion of host fields is total and never yields a nil object (SSA nil-source analysis with function summaries over every Object-returning function and every push/store sink), every run and nested call starts from an empty field cache, and names resolve as variable, then field, then null (dominance in the resolver). The reflect.Kind → object table is the documented one, comma-ok results are used only where ok was tested, and no built-in reorders or writes an array it was given (a field's array is shared with the field cache). Members of host containers are taken out of their interface before the kind switch sees them, and the set that cuts off self-containing containers holds the current path only (a sibling met twice is not a cycle).",
 		NotDecided:  "lossless conversion per kind, order and length of arrays, nested maps: values produced by reflection at run time.",
 		Assumptions: commonAssumptions},
 	{ID: "C05", Title: "one notion of truth", Level: "other",
@@ -80,8 +80,8 @@ var properties = []Property{
 		NotDecided:  "the length of the delay: a single instruction (regexp match, sort, a huge range) may run long; Go scheduling.",
 		Assumptions: commonAssumptions},
 	{ID: "C06", Title: "functions and scopes", Level: "other",
-		Rules:       []string{"R-SCOPEPAIR", "R-SCOPERESTORE", "R-BINDINNER", "R-FRAMERESTORE", "R-LOCALGUARD", "R-CALLPROTO", "R-SCOPESEARCH", "R-SCOPEFRESH", "R-TABLEKEEP", "R-BODYRETURN", "R-FUNCFLAG"},
-		Explanation: "SSA dominance and call-graph checks on the call protocol: the callee's scope is opened before parameters are bound, binding goes to the innermost scope, scopes and the swapped VM fields are restored by deferred code (by absolute depth / to the pre-swap values) on every exit, loops open and close their scope, `local` only inside functions. A built-in wins over a user function and the arity check applies to the function actually called; scope walks go innermost first; every scope pushed is a freshly made map and the stack is only ever truncated.",
+		Rules:       []string{"R-SCOPEPAIR", "R-SCOPERESTORE", "R-BINDINNER", "R-FRAMERESTORE", "R-LOCALGUARD", "R-CALLPROTO", "R-SCOPESEARCH", "R-SCOPEFRESH", "R-TABLEKEEP", "R-BODYRETURN", "R-FUNCFLAG", "R-NAMEAGREE"},
+		Explanation: "SSA dominance and call-graph checks on the call protocol: the callee's scope is opened before parameters are bound, binding goes to the innermost scope, scopes and the swapped VM fields are restored by deferred code (by absolute depth / to the pre-swap values) on every exit, loops open and close their scope, `local` only inside functions. A built-in wins over a user function and the arity check applies to the function actually called; scope walks go innermost first; every scope pushed is a freshly made map and the stack is only ever truncated. Every handler that uses a name from the program as a variable's name makes that name the same way (the legacy $ prefix).",
 		NotDecided:  "innermost-first lookup order and the redirect of assignments to an existing local (loop direction over run-time data); results of recursion; built-in-before-user lookup order.",
 		Assumptions: commonAssumptions},
 	{ID: "C07", Title: "no hidden state between runs", Level: "other",
@@ -90,14 +90,14 @@ var properties = []Property{
 		NotDecided:  "cost growth other than through the scope stack and value stack; state inside host-supplied objects and functions.",
 		Assumptions: commonAssumptions},
 	{ID: "C15", Title: "numbers, strings and booleans are values", Level: "other",
-		Rules:       []string{"R-NOMUT", "R-CONSTDEDUP", "R-PUREARGS", "R-POOLOWNER"},
+		Rules:       []string{"R-NOMUT", "R-CONSTDEDUP", "R-PUREARGS", "R-POOLOWNER", "R-NAMEAGREE"},
 		Explanation: "Immutability argument: if no code reachable from the interpreter mutates a value object other than a private copy (receiver-mutating methods are only invoked on results of a copier covering every library type that has them; nothing else stores into object fields), then sharing pointers between variables, the constant pool and the field cache is unobservable — which is the property inside the library.",
 		NotDecided:  "objects of host-defined types implementing the increment/iteration interfaces.",
 		Assumptions: commonAssumptions},
 	{ID: "C10", Title: "confinement", Level: "proof",
-		Rules:       []string{"R-EFFECTS", "R-IMPORTS", "R-DYNCALLS"},
+		Rules:       []string{"R-EFFECTS", "R-IMPORTS", "R-DYNCALLS", "R-GLOBALS"},
 		Tech:        "closed-world reference and call enumeration against an allow-list (types.Info uses/selections, import scan of every file regardless of build constraints, resolution of every dynamic call site)",
-		Explanation: "Closed-world argument: every object from outside the module that library code references is on an allow-list of I/O-free packages plus exactly the effects the property grants (stdout through fmt.Print*, os.Getenv, the clock, the time-zone database); every file of the library — whatever its build constraints — imports only allow-listed packages and uses no cgo/linkname/assembly; every call through a function value resolves to module functions or to functions the host registered. One obligation per external object, per file, per dynamic call site and per function-table writer; all must be discharged.",
+		Explanation: "Closed-world argument: every object from outside the module that library code references is on an allow-list of I/O-free packages plus exactly the effects the property grants (stdout through fmt.Print*, os.Getenv, the clock, the time-zone database); every file of the library — whatever its build constraints — imports only allow-listed packages and uses no cgo/linkname/assembly; every call through a function value resolves to module functions or to functions the host registered. One obligation per external object, per file, per dynamic call site and per function-table writer; all must be discharged. No package-level variable shares a table between evaluators: a guarded variable's value is reachable through the variable only, so a function one host registered cannot turn up in another evaluator.",
 		NotDecided:  "nothing inside the stated trusted base; what host-registered functions do is the host's business, as the property says.",
 		Assumptions: commonAssumptions,
 		TrustedBase: []string{
@@ -121,12 +121,12 @@ var properties = []Property{
 		NotDecided:  "what regexp literals denote character by character, and that layout and comments never change the token sequence in general: character-level value semantics.",
 		Assumptions: commonAssumptions},
 	{ID: "C16", Title: "containers", Level: "other",
-		Rules:       []string{"R-SCRIPTINDEX", "R-HASHKEY", "R-MAPORDER", "R-NOMUT", "R-ITERNEXT", "R-RANGE", "R-POPORDER", "R-MEMBERSHIP", "R-LENKIND", "R-PUREARGS"},
+		Rules:       []string{"R-SCRIPTINDEX", "R-HASHKEY", "R-MAPORDER", "R-NOMUT", "R-ITERNEXT", "R-RANGE", "R-POPORDER", "R-MEMBERSHIP", "R-LENKIND", "R-PUREARGS", "R-CONSTDEDUP"},
 		Explanation: "Every slice index computed from a script value is proven within bounds from the dominating comparisons (difference constraints over canonical len terms); every HashKey() keeps the type and the value of the key; hash entries are iterated in a total order (sorted with a comparator that identifies the entry); iteration works on a private cursor so every entry is visited exactly once even in nested loops. Ranges are built start to end inclusive, literals pop their elements in reverse push order, membership compares type and printed form over every element, len counts runes/elements.",
 		NotDecided:  "element order from the stack, len, membership: values.",
 		Assumptions: commonAssumptions},
 	{ID: "C19", Title: "determinism", Level: "other",
-		Rules:       []string{"R-MAPORDER", "R-NONDETSRC", "R-PREPAREFRESH", "R-NOMUT", "R-POOLOWNER"},
+		Rules:       []string{"R-MAPORDER", "R-NONDETSRC", "R-PREPAREFRESH", "R-NOMUT", "R-POOLOWNER", "R-FRAMERESTORE"},
 		Explanation: "Every iteration over a Go map in the library is classified as order-insensitive, collected-then-totally-sorted, or listed with a reason; there is no goroutine, multi-way select, pointer printing or randomness in the library; Prepare starts from empty compile outputs. No stack trace, goroutine or process identity reaches a result; a listed order-insensitive map loop must run to exhaustion.",
 		NotDecided:  "nothing structural remains; what remains is values (and now()/time()/getenv(), which the property excludes).",
 		Assumptions: commonAssumptions},
@@ -136,13 +136,13 @@ var properties = []Property{
 		NotDecided:  "every value-level contract: split and the join/split round trip as a whole, sort's permutation property, conversions, string helpers.",
 		Assumptions: commonAssumptions},
 	{ID: "C20", Title: "front ends", Level: "other",
-		Rules:       []string{"R-RUNEXEC", "R-ENVSHARE", "R-VOIDPUSH", "R-FLAGONLY", "R-NOINJECT", "R-CTXFLOW", "R-DRIVER", "R-POPORDER", "R-SCOPERESTORE", "R-LOCKSET", "R-FMTCONST", "R-SWITCHONCE"},
-		Explanation: "Narrow claim. Run is True() of Execute's object with Execute's error; the API methods pass their own arguments to the one environment the machine was built on; call results are pushed exactly when not void; the NoOptimize flag guards only the optimizer switch; the library injects no variables; the context flows SetContext → Prepare → VM; the command-line driver sets the context before Prepare, plumbs -no-optimizer and the decoded JSON document, reports type/value/truth of Execute's result and recovers panics. Only Prepare and Run take the evaluator's mutex (a host function may call the other methods during Run); printf-style calls have constant formats, so a result's text is never re-interpreted; call arguments are popped in reverse push order. Known finding: the subject of a switch is translated once per arm, so a host function used as subject is called several times.",
+		Rules:       []string{"R-RUNEXEC", "R-ENVSHARE", "R-VOIDPUSH", "R-FLAGONLY", "R-NOINJECT", "R-CTXFLOW", "R-DRIVER", "R-POPORDER", "R-SCOPERESTORE", "R-LOCKSET", "R-FMTCONST", "R-SWITCHONCE", "R-CALLPROTO", "R-NAMEAGREE"},
+		Explanation: "Narrow claim. Run is True() of Execute's object with Execute's error; the API methods pass their own arguments to the one environment the machine was built on; call results are pushed exactly when not void; the NoOptimize flag guards only the optimizer switch; the library injects no variables; the context flows SetContext → Prepare → VM; the command-line driver sets the context before Prepare, plumbs -no-optimizer and the decoded JSON document, reports type/value/truth of Execute's result and recovers panics. Only Prepare and Run take the evaluator's mutex (a host function may call the other methods during Run); printf-style calls have constant formats, so a result's text is never re-interpreted; call arguments are popped in reverse push order. Known finding: the subject of a switch is translated once per arm, so a host function used as subject is called several times. A host function wins over a script function of the same name.",
 		NotDecided:  "argument order of host calls (index arithmetic over run-time counts), what the driver prints character by character, the lex/parse sub-commands' output.",
 		Assumptions: commonAssumptions},
 	{ID: "C18", Title: "well-formed code", Level: "other",
-		Rules:       []string{"R-EMITLEN", "R-HANDLERS", "R-PATCHALL", "R-JOINPH", "R-JUMPSET", "R-OPBOUNDARY", "R-NARROW", "R-CONSTDEDUP", "R-FOLDRESET", "R-BODYSTATE", "R-OPTCLOSED", "R-CONSTREF", "R-COUNTED", "R-EMITSET", "R-VALUEPOS", "R-LOOPSTACK", "R-POOLOWNER", "R-BODYRETURN"},
-		Explanation: "Emitter-side structural checks: operand presence agrees with code.Length at every emit site and handler, every opcode is handled, every placeholder is patched, every forward label is followed by an instruction, jump sets agree, opcodes are only read at instruction pointers, 16-bit operands are range-checked. Compiler state reset for a function body is restored after it (so the implicit return is decided on the body just compiled), the optimizer removes exactly NOPs, and its constant window is reset, not trimmed. Every instruction whose handler indexes the constant table is emitted with the index the constant pool returned. Counted instructions take their count from the field whose loop pushes exactly that many operands; each construct emits only the opcodes of its scheme. Known findings: value-less constructs (assignment, compound assignment, ++/--) are accepted as operands and underflow the stack at run time; a foreach body can bury its iterator.",
+		Rules:       []string{"R-EMITLEN", "R-HANDLERS", "R-PATCHALL", "R-JOINPH", "R-JUMPSET", "R-OPBOUNDARY", "R-NARROW", "R-CONSTDEDUP", "R-FOLDRESET", "R-BODYSTATE", "R-OPTCLOSED", "R-CONSTREF", "R-COUNTED", "R-EMITSET", "R-VALUEPOS", "R-LOOPSTACK", "R-POOLOWNER", "R-BODYRETURN", "R-PREPAREFRESH"},
+		Explanation: "Emitter-side structural checks: operand presence agrees with code.Length at every emit site and handler, every opcode is handled, every placeholder is patched, every forward label is followed by an instruction, jump sets agree, opcodes are only read at instruction pointers, 16-bit operands are range-checked. Compiler state reset for a function body is restored after it (so the implicit return is decided on the body just compiled), the optimizer removes exactly NOPs, and its constant window is reset, not trimmed. Every instruction whose handler indexes the constant table is emitted with the index the constant pool returned. Counted instructions take their count from the field whose loop pushes exactly that many operands; each construct emits only the opcodes of its scheme. Known findings: value-less constructs (assignment, compound assignment, ++/--) are accepted as operands and underflow the stack at run time; a foreach body can bury its iterator. Prepare starts from empty compile outputs, so no function body compiled against an earlier constant pool survives.",
 		NotDecided:  "stack balance on every path and jump targets of a given emitted program (properties of Prepare's output); R-VALUEPOS and R-LOOPSTACK decide two necessary conditions of stack discipline only.",
 		Assumptions: commonAssumptions},
 }
